@@ -12,7 +12,7 @@ tvars == <<l, st, k>>
 
 TInit == l = 1 /\ st = <<>> /\ k = 64
 
-Report(ok, why) == ok \/ (PrintT(<<"BAD", l, why>>) /\ TRUE)
+Report(ok, why) == IF ok THEN TRUE ELSE PrintT(<<"BAD", l, why>>)
 
 TReset == Rec[l].e = "reset" /\ st' = <<>> /\ k' = Rec[l].k
 
